@@ -105,13 +105,22 @@ func VerifC17Init() {
 	verifC17Failover(2, true)
 }
 
+// VerifC17Init3 is the thorough variant of VerifC17Init.
+//
+//verif:harness name=H17c-init3 tier=thorough bounds="as H17c-init with 3 steps after the start-up probe" reach=done,init-probe,no-fallbacks,failover maxpaths=8000000
+//verif:assume as H17c-init
+func VerifC17Init3() {
+	verifOuts = []int{verifOutOK, verifOutServfail, verifOutNetErr, verifOutOther}
+	verifC17Failover(3, true)
+}
+
 // VerifC17Failover5 is the thorough variant.
 //
-//verif:harness name=H17a-failover5 tier=thorough bounds="as H17a-failover with 4 steps, with or without the start-up probe"  reach=done,backoff-skip,failover,servfail-path,recovered,no-fallbacks maxpaths=8000000
+//verif:harness name=H17a-failover5 tier=thorough bounds="as H17a-failover with 4 steps"  reach=done,backoff-skip,failover,servfail-path,recovered,no-fallbacks maxpaths=8000000
 //verif:assume clock readings non-decreasing in [2^41, 2^62), backoff in (0, 2^40]; the pick among active upstreams / fallbacks is an explored choice
 func VerifC17Failover5() {
 	verifOuts = []int{verifOutOK, verifOutServfail, verifOutNetErr, verifOutOther}
-	verifC17Failover(4, verifChoice(2) == 1)
+	verifC17Failover(4, false)
 }
 
 func verifC17Failover(steps int, initProbe bool) {
